@@ -92,7 +92,7 @@ func ruleGetPrecedence(r *Report) {
 	// (3) error discipline of the read path
 	ef := newErrflow(r, rule)
 	ef.extraClass = map[string]map[string]bool{
-		"simpledb.DB.GetBytes":   {"sstables.NotFound": true, "memstore.KeyNotFound": true},
+		"simpledb.DB.GetBytes":    {"sstables.NotFound": true, "memstore.KeyNotFound": true},
 		"simpledb.RWMemstore.Get": {"memstore.KeyNotFound": true},
 	}
 	ef.Check(fn)
